@@ -152,7 +152,7 @@ class Construction:
       raise gfapy.AssertionError(
         "Bug found, please report\n"+
         "strings: {}".format(repr(strings)))
-    if (self.vlevel >= 1) and (len(strings)-1 < self._n_positional_fields):
+    if len(strings)-1 < self._n_positional_fields:
       raise gfapy.FormatError(
         "{} positional fields expected, ".format(self._n_positional_fields) +
         "{} found\n{}".format(len(strings)-1, repr(strings)))
